@@ -874,6 +874,21 @@ class ProfileEngine:
             canon_exc = self.apply_profile(curves.make_curve(
                 {"kind": "synthetic", "model": "hertz_para", "n": 700,
                  "noise": 0.01, "seed": 7}), ref, explicit)
+            if canon_exc is not None and \
+                    "compute_tip_position" not in ref["preprocessing"] and \
+                    "tip position" in str(canon_exc):
+                # the profile itself is the one without tip position, even
+                # if another step failed first on this particular curve
+                feats["missing_tip_position"] = True
+                feats["exc"] = type(canon_exc).__name__
+                return make_violation(
+                    self.prop, "F5",
+                    f"fit_perform-raises:{type(canon_exc).__name__}", feats,
+                    f"fit_perform raised {type(e).__name__}: "
+                    f"{str(e)[:120]}; on a benign curve the profile fails "
+                    f"with {type(canon_exc).__name__}: "
+                    f"{str(canon_exc)[:120]} (preprocessing "
+                    f"{ref['preprocessing']})", i)
             if canon_exc is None:
                 data_exc = None
                 for pp in afmformats_find(folder):
